@@ -29,6 +29,16 @@ CHECKS.update({
    text='encode_image / encode_end / encode_outside_untouched: for every layout and value tree (any nesting, counts, data lengths) the in-order encode of v over previous contents mid inside pre++mid++post leaves pre ++ image(fill v mid) ++ post and stops at the image end; setter_writes_value / setter_frame: with leaves in validator order every leaf holds its value and every non-leaf byte keeps its previous value; scalar_roundtrip for the byte order. Correspondence: 32 (quick) / 200 (thorough) generated schemas -> real sbeppc -> generated driver executing fill_message_header, every setter (random access and cursor), fill_group_header, data assign_range on random pre-filled buffers; every byte compared.',
    note='Trusted: Lean kernel; Spec.encL as the meaning of the script and the resolver model are tied to the code only by the differential check; leaf order (Sorted) is a hypothesis. Messages whose blockLength does not fit the header member are skipped (C07 matter).'),
 })
+CHECKS.update({
+ 'C05': dict(
+   technique='Lean 4 proof (sizes computed by the runtime walk model = image length, any nesting/extension; encoder end position) + model of the generated trait-level formula + Layer R on generated schemas; per-type-pair kernel arithmetic of flat_group_base::size_bytes proved over the extracted kernel (C05Flat, when present)',
+   text='level_size, group_size, data_size, cursor_size_after_encode, flat_level_size. Correspondence: every size query of the real generated code (message, each group, each entry, each data member, cursor-based size after a full traversal, message_traits<>::size_bytes(total counts, total data)) on reference images of generated schemas, against the image length and against Gen.SizeFormula.',
+   note='Trusted as C02. The equality of the trait-level formula with the image length is only checked differentially (not yet a theorem). Known finding: cursor-based size of a member-less message.'),
+ 'C17': dict(
+   technique='Lean 4 proof over the member-wise write model of the generated fillers (read-back and frame for arbitrary non-overlapping member layouts) + Layer R on generated header layouts',
+   text='fill_values (every written member reads back the schema value when it fits), fill_frame (no other byte of the header or behind it changes; length preserved), message_filler_is_fields / group_filler_is_fields (what is written: schemaId, templateId, version, blockLength / blockLength, numInGroup, + declared numGroups/numVarDataFields), block_length_value (explicit or computed), sorted_members_disjoint. Correspondence: 40/200 generated schemas whose header composites are permuted, offset, padded, ref-typed, of every unsigned type, with optional counters; real fillers on random pre-filled buffers, all bytes compared; returned view must be the header.',
+   note='Trusted as C01. Values that do not fit the member type are a C07 matter (generated code does not compile).'),
+})
 NOT_APPLICABLE = {}
 
 ALL = ['C%02d' % i for i in range(1, 21)]
